@@ -26,6 +26,7 @@ const (
 	sigPartial      = "partial-write-destroys-store"
 	sigNotSaved     = "acknowledged-change-not-saved-on-stop"
 	sigLostByReload = "acknowledged-change-lost-by-reload-of-untouched-file"
+	sigAfterFault   = "change-after-failed-save-not-written"
 )
 
 var scratchOnce sync.Once
@@ -92,10 +93,14 @@ var recFaults = ev.New("C20", "write-fault-enumeration",
 		"configured path is a symbolic link (absolute or relative target) to the real file / path relative to the working directory): a child process repeats the scenario with RLIMIT_FSIZE=k for EVERY k in "+
 		"0..len(new document) (SIGXFSZ ignored: the write fails after exactly k bytes). After each fault the parent decodes what the configured path leads to "+
 		"with a codec written from the README (must be one complete document equal to the previous or the new user set) and starts a fresh "+
-		"server on it (must start and accept exactly that set's keys). One evaluation = one fault point. Non-trivial: 0<k<len(document) and "+
+		"server on it (must start and accept exactly that set's keys). For debounce-triggered cases the child then lifts the limit "+
+		"and, in the same process, either re-applies the very change whose save failed (undo+redo within one cool-down), or reloads the "+
+		"untouched file and makes one more change, or just makes one more change, and stops gracefully: the store must equal the "+
+		"acknowledged set. One evaluation = one fault point. Non-trivial: 0<k<len(document) and "+
 		"the save was actually attempted. Distinct key = (key size, stores, users before, op, trigger, k)").
 	Require("k-inside-document", "k-zero", "k-full-length", "via/debounce", "via/cancel", "users/0", "op/add", "op/update", "op/delete",
-		"loc/plain", "loc/symlink-abs", "loc/symlink-rel", "loc/relative", "loc/relative-subdir", "loc/subdir")
+		"loc/plain", "loc/symlink-abs", "loc/symlink-rel", "loc/relative", "loc/relative-subdir", "loc/subdir",
+		"after/redo", "after/reload", "after/more", "changes-after-a-failed-save-written")
 
 type verdict struct {
 	set   string // "prev", "new" or ""
@@ -180,6 +185,9 @@ func TestFaultEnumeration(t *testing.T) {
 		cases[i].Via = []string{"debounce", "cancel"}[(i+seed)%2]
 		cases[i].Stores = []credx.Mode{credx.Both, credx.TCPOnly, credx.UDPOnly}[(i/2+seed)%3]
 		cases[i].Loc = Locs[(i+seed)%len(Locs)]
+		if cases[i].Via == "debounce" {
+			cases[i].After = []string{"redo", "reload", "more"}[(i/2+seed)%3]
+		}
 	}
 	if shards := envInt("VERIF_SHARDS", 1); shards > 1 {
 		sh, _ := strconv.Atoi(os.Getenv("VERIF_SHARD"))
@@ -232,7 +240,7 @@ func TestFaultEnumeration(t *testing.T) {
 	wg.Wait()
 
 	cache := map[[32]byte]verdict{}
-	var violations []string
+	var violations, afterViolations []string
 	knownCount := 0
 	for _, j := range jobs {
 		if j.err != "" {
@@ -264,6 +272,28 @@ func TestFaultEnumeration(t *testing.T) {
 			}
 			if r.SaveErr {
 				labels = append(labels, "save-error-logged")
+			}
+			if sp.After != "" {
+				labels = append(labels, "after/"+sp.After)
+				_, _, final := afterOps(sp)
+				wantAfter := users(kl, final)
+				got, complete, derr := credx.DecodeStore(r.AfterFile, kl)
+				bad := r.AfterBad
+				if bad == "" && (derr != nil || !complete || !credx.SameUsers(got, wantAfter)) {
+					bad = fmt.Sprintf("after the graceful stop the store file holds %s (decode error %v), the acknowledged set is %s; save errors logged in this part: %d",
+						credx.Show(got, kl), derr, credx.Show(wantAfter, kl), r.AfterErrors)
+				}
+				if bad != "" {
+					msg := fmt.Sprintf("SIG=C20/%s case %s: previous store %s, %s(%s) acknowledged, its save limited to %d of %d bytes (error logged: %v); limit lifted; then in the same process: %s; graceful stop: %s",
+						sigAfterFault, class, credx.Show(prev, kl), sp.Op.Op, sp.Op.Name, r.K, j.out.NewDocLen, r.SaveErr, r.AfterNote, bad)
+					if isKnown(sigAfterFault) {
+						recFaults.KnownHit(listedSig(sigAfterFault))
+					} else if r.SaveErr || len(afterViolations) == 0 {
+						afterViolations = append(afterViolations, msg)
+					}
+				} else if r.SaveErr {
+					labels = append(labels, "changes-after-a-failed-save-written")
+				}
 			}
 			v := judge(r.File, kl, sp.Stores, prev, next, base, cache)
 			if v.set == "" {
@@ -298,6 +328,14 @@ func TestFaultEnumeration(t *testing.T) {
 			}
 		}
 		recFaults.Sample(map[string]any{"case": class, "prev": sp.Prev, "op": sp.Op, "doc_len": j.out.NewDocLen, "fault_points": len(j.out.Results)})
+	}
+	sort.Slice(afterViolations, func(a, b int) bool { return len(afterViolations[a]) < len(afterViolations[b]) })
+	if len(afterViolations) > 0 {
+		t.Errorf("%s", afterViolations[0])
+		if len(afterViolations) > 1 {
+			t.Errorf("%s", afterViolations[len(afterViolations)/2])
+			t.Errorf("(%d fault points failed this way)", len(afterViolations))
+		}
 	}
 	sort.Slice(violations, func(a, b int) bool { return len(violations[a]) < len(violations[b]) })
 	for i, v := range violations {
